@@ -25,3 +25,14 @@ for k in (16, 31):
       call='precalc(f, dur)', ret='struct precalc_s', solvers=['cadical'], timeout=600, split='in_soft > -(1 << 27) && in_soft < (1 << 27)',
       bounded=dict(bound='|UTC difference| < 2^27 seconds (harness-level restriction)', why='64-bit division chains beyond this range did not discharge'),
       sweep={'in_soft': '(int)(RND % (1U << 31)) - (1 << 30)', 'in_corr': '(int)(RND % 60) - 30'})
+
+# the same obligation in two narrow windows far above the main bound (2^31 and 2^32 seconds: where a 32-bit intermediate would wrap)
+for nm, lo in (('p31', '(1LL << 31)'), ('p32', '(1LL << 32)'), ('m31', '(-(1LL << 31) - (1LL << 20))')):
+    for k in (16, 31):
+        fx = {('in_%s' % n): str((k >> i) & 1) for i, n in enumerate(FL)}
+        G('dd.precalc.hi.%s.%02d' % (nm, k), 'ddiff', 'precalc', ['C06'], ins=[('unsigned', 'in_' + n) for n in FL] + [('long long', 'in_dv')], fix=fx,
+          setup='durfmt_t f = {0}; f.has_week = in_week; f.has_day = in_day; f.has_hour = in_hour; f.has_min = in_min; f.has_sec = in_sec; '
+                'struct dt_dtdur_s dur = {(dt_dtdurtyp_t)DT_DURUNK}; dur.durtyp = DT_DURS; dur.dv = in_dv;',
+          call='precalc(f, dur)', ret='struct precalc_s', solvers=['cadical'], timeout=600, split='in_dv >= %s && in_dv < %s + (1LL << 20)' % (lo, lo),
+          bounded=dict(bound='totals in a window of 2^20 seconds starting at %s' % lo, why='see dd.precalc.*: the full range does not discharge'),
+          sweep={'in_dv': '(long long)(RND % (1ULL << 41)) - (1LL << 40)'})
